@@ -289,3 +289,52 @@ def value_setter_model(ctx, rule):
         ctx.fail(rule, f, f.node, "rx value-setter model: %s (%d disagreeing case(s))" % (problems[0], len(problems)), key=f.qualname + "::value-setter-model")
     else:
         ctx.ok(rule, f, f.node, "rx value-setter model: the root's wrapper receives the resolved (rebuilt) value, with and without references inside")
+
+
+def evaluation_order_model(ctx, rule):
+    """Plain Python evaluates `pipeline <op> argument` left to right.  With BOTH sides failing -- the input of the pipeline
+    makes the root raise ZeroDivisionError, the argument's own evaluation raises IndexError -- reading the node must raise
+    what the plain expression raises: the pipeline's exception.  The real rx._resolve / _eval_operation are interpreted on
+    the three-node world of the cache model."""
+    w = World(ctx)
+    BADROOT, BADARGX = Obj("input_that_makes_the_pipeline_raise"), Obj("argument_whose_evaluation_raises")
+    base_hook = w.hook
+
+    def hook(fn, args, kwargs):
+        if fn == "eval_function_with_deps" and w.cur is BADROOT:
+            raise _Raise("ZeroDivisionError")
+        if fn == "resolve_value" and args and args[0] is w.argref and w.arg is BADARGX:
+            raise _Raise("IndexError")
+        return base_hook(fn, args, kwargs)
+    w.hook = hook
+    problems = []
+    try:
+        w.update(BADROOT)
+        w.update_arg(BADARGX)
+        o = w.read(w.mid)
+        got = o.value if o.kind == "raise" else "a value"
+        if o.kind != "raise" or str(got) != "ZeroDivisionError":
+            problems.append("with the pipeline's input AND an argument of the operation both invalid, reading the node raises %s; the plain expression `pipeline <op> argument` evaluates its left "
+                            "side first and raises the pipeline's exception (ZeroDivisionError here)" % got)
+        # only the argument invalid: its exception
+        w2 = World(ctx)
+        base2 = w2.hook
+
+        def hook2(fn, args, kwargs):
+            if fn == "resolve_value" and args and args[0] is w2.argref and w2.arg is BADARGX:
+                raise _Raise("IndexError")
+            return base2(fn, args, kwargs)
+        w2.hook = hook2
+        w2.update_arg(BADARGX)
+        o2 = w2.read(w2.mid)
+        if o2.kind != "raise" or str(o2.value) != "IndexError":
+            problems.append("with only the argument invalid reading the node gives %s, specification IndexError" % (o2.value if o2.kind == "raise" else "a value"))
+    except Unsupported as e:
+        raise AnalysisError("rx model (evaluation order): absint cannot interpret rx._resolve: %s" % e)
+    ctx.abstract_cases += 2
+    f = ctx.repo.func(RX + "._resolve")
+    if problems:
+        ctx.fail(rule, f, f.node, "rx evaluation-order model: %s" % problems[0], key=f.qualname + "::evaluation-order",
+                 input="(total / count) + items[index] with count=0 and index=99 raises IndexError instead of ZeroDivisionError")
+    else:
+        ctx.ok(rule, f, f.node, "rx evaluation-order model: the pipeline is evaluated before the arguments of the operation (the pipeline's exception wins, as in the plain expression)")
